@@ -194,7 +194,7 @@ func init() {
 					continue
 				}
 				ok := gen.Deviations(src, c17Toks, nil, func(d string) bool {
-					if c.Quick() {
+					if c.Quick() && len(toks) > 7 {
 						return do(d)
 					}
 					return withLayouts(d, 1)
